@@ -15,7 +15,8 @@ MANIFEST = dict(
          "point (hash_item, hash_wset, IndexMap, HashMap), on a ProbMinHash3/3a pair fed the same sets, and on pairs whose "
          "weights differ by a power of two; TLC validates every recorded signature against the arg-min of measured race "
          "tables (register accessor hook), treating exact floating-point ties as the property says. Weights near both ends of "
-         "the f64 range are probed separately.",
+         "the f64 range are probed separately."
+         " Realistic sizes are covered harness-side with the same Layer-A function: m up to 4096 with streams up to 10^5 (10^6 thorough), and sketches far larger than the stream (singletons and sets dominated by one heavy entry at m up to 30000, with the ProbMinHash3-vs-3a comparison).",
     design_ref="DESIGN.md section 4, C02",
     note="trusted: TLC, Json/IOUtils, rank abstraction, measured race tables via the guarded register accessor; the union law "
          "is a consequence of the validated arg-min semantics; exhaustive only at the stated small sizes",
